@@ -100,3 +100,24 @@ def assumptions():
             res[n] = [l.split(':')[0].strip() for l in b.splitlines()[1:] if l and not l.startswith(' ')]
     json.dump({'framework': fh, 'result': res}, open(cache, 'w'))
     return res
+
+
+def coqchk():
+    """independent re-check of the compiled development (thorough tier) -> {'axioms': '<none>' | text, 'ok': bool} (cached)"""
+    import json
+    cache = os.path.join(P.WORK, 'coqchk.json')
+    fh = P.framework_hash()
+    if os.path.exists(cache):
+        j = json.load(open(cache))
+        if j.get('framework') == fh:
+            return j['result']
+    p = P.run(['coqchk', '-o', '-silent', '-Q', 'theories', 'BB', 'BB.Properties', 'BB.Examples'], cwd=P.COQ, timeout=3000, check=False)
+    out = (p.stdout or '') + (p.stderr or '')
+    m = re.search(r'\* Axioms:\s*(.*?)\n\s*\n', out, re.S)
+    ax = m.group(1).strip() if m else 'unparsed'
+    clean = all(re.search(r'\* %s:\s*<none>' % re.escape(k), out) for k in
+                ('Axioms', 'Constants/Inductives relying on type-in-type', 'Constants/Inductives relying on unsafe (co)fixpoints',
+                 'Inductives whose positivity is assumed'))
+    res = {'axioms': ax, 'ok': p.returncode == 0 and clean, 'summary': out[-600:]}
+    json.dump({'framework': fh, 'result': res}, open(cache, 'w'))
+    return res
